@@ -146,6 +146,11 @@ package transport
 //@ property C13 C12
 //@ assume functype github.com/go-netty/go-netty/transport.Option
 //@   modifies Options.*
+//@ func (Schemes).indexOf
+//@   params ss scheme
+//@   modifies nothing
+//@   loop 0 invariant -1 <= rangeindex && rangeindex < len(ss)
+//@   ensures inrange: -1 <= result && result < len(ss)
 //@ func withAddress
 //@   params address
 //@   ensures result != nil
